@@ -18,6 +18,8 @@ RULE = (
     "Plus exhaustive permutations of small subsets of a fixed near-tie pool. "
     "Non-trivial = >=3 records and (an equal-BO/different-NO pair presented in descending order, or an untagged anchor "
     "among tagged ones); distinct by SHA-1 of the case."
+    " Later additions: scaffold nodes that are not rank 0, integer tags with an explicit plus sign, neighbour "
+    "records sharing walk and start, 70 000 records."
 )
 LEVEL_TEXT = (
     "Generated-input search: no counterexample to the total order among the generated graphs/record multisets and "
